@@ -19,7 +19,7 @@ import (
 	"verifextract/ex"
 )
 
-func main() { ex.Main([]string{"TermModes.lean", "TermBodies.lean", "TermDraw.lean"}, func(c *ex.Ctx) { gen(c); genBodies(c); genDraw(c) }) }
+func main() { ex.Main([]string{"TermModes.lean", "TermBodies.lean", "TermDraw.lean", "TermLoop.lean"}, func(c *ex.Ctx) { gen(c); genBodies(c); genDraw(c); genLoop(c) }) }
 
 type arm struct {
 	label  []int  // bytes of the string label, or the single rune value for c0
